@@ -10,7 +10,7 @@ use std::sync::{Arc, Mutex};
 
 // the last four contain a lone % or $ (followed by a harmless character): plain text, not a reference
 const LIT: [&str; 18] = ["a", "b", " ", "{", "}", ":", "-", "#", "=", "x y", "1", ".", "{}", "é", "50% off", "% x", "5$ y", "a%b"];
-const NAMES: [&str; 5] = ["x", "y", "long_name", "a.b", "n1"];
+const NAMES: [&str; 8] = ["x", "y", "long_name", "a.b", "n1", "größe", "файлы", "é"];
 const VALS: [&str; 20] = ["", "v", "two words", "${x}", "%{y}", "\\${x}", "a}b", "$", "%", " lead", "q\"uote", "back\\slash", "end\n", "a b\t", "w\r\n", "trail ", "\u{a0}nb", "\\\\srv\\share x", "a \\d+", "\\"];
 
 pub fn gen(r: &mut Rng) -> Value {
